@@ -38,6 +38,7 @@ def parseBeh (s : String) : Beh :=
     | _ => .panic
   else
   if k == "E" then .events n else
+  if k == "w" then .getBody 1000000 else
   if k == "n" then .normal n else if k == "g" then .getBody n else if k == "a" then .always n
   else if k == "d" then .drop else .panic
 
@@ -184,9 +185,11 @@ where
     (List.range (hay.length + 1)).any fun i => needle.isPrefixOf (hay.drop i)
 
 /-- C09 (single-request scenarios `POST … g<M>`): the boundary table, from the property statement. -/
-def sizeCheck (small : Nat) (cache : Bool) (reqs : List SReq) (calls : List String) (wire : Bytes) : List String :=
+def sizeCheck (small : Nat) (cache : Bool) (reqs : List SReq) (calls0 : List String) (wire : Bytes) : List String :=
   match reqs with
-  | [r] =>
+  | r :: _ =>
+    -- (judged on the first request; requests that follow on the same connection have their own calls)
+    let calls := calls0.filter fun c => match c.splitOn ":" with | [_, p, _] => p == r.path | _ => true
     match r.beh with
     | .getBody m =>
       let declared := r.framing == "k" || r.framing == "e" || r.framing.startsWith "d" || r.framing.startsWith "f"
@@ -210,7 +213,7 @@ def sizeCheck (small : Nat) (cache : Bool) (reqs : List SReq) (calls : List Stri
         (if pendingCalls == 1 && bodyCalls == 0 then [] else ["second-run-on-oversized-body"]) ++
         (if code == 413 then [] else ["oversized-body-not-413"])
     | _ => []
-  | _ => []
+  | [] => []
 
 def handle (tag : String) (args : List String) (obs : String) : String :=
   match args with
